@@ -242,10 +242,8 @@ pub use crate::git::Oid;
 /// whose wire bytes are uninterpreted; ASSUMED to satisfy the Encode/Decode contracts of this unit (no alternative form).
 pub struct Alias { pub opaque: u64 }
 pub struct UserAgent { pub opaque: u64 }
-pub struct Address { pub opaque: u64 }
 pub uninterp spec fn alias_bytes(a: Alias) -> Seq<u8>;
 pub uninterp spec fn agent_bytes(a: UserAgent) -> Seq<u8>;
-pub uninterp spec fn address_bytes(a: Address) -> Seq<u8>;
 pub uninterp spec fn default_agent() -> UserAgent;
 impl UserAgent { #[verifier::external_body] pub fn default() -> (r: UserAgent) ensures r == default_agent() { unimplemented!() } }
 impl Encode for Alias { open spec fn enc(&self) -> Seq<u8> { alias_bytes(*self) }
@@ -256,10 +254,58 @@ impl Encode for UserAgent { open spec fn enc(&self) -> Seq<u8> { agent_bytes(*se
     #[verifier::external_body] fn encode<W: io::Write + ?Sized>(&self, writer: &mut W) -> Result<usize, io::Error> { unimplemented!() } }
 impl Decode for UserAgent { open spec fn wire(v: Self) -> Seq<u8> { agent_bytes(v) } open spec fn canonical_only() -> bool { true } open spec fn loose(v: Self, before: Seq<u8>, after: Seq<u8>) -> bool { true }
     #[verifier::external_body] fn decode<R: io::Read + ?Sized>(reader: &mut R) -> Result<Self, Error> { unimplemented!() } }
-impl Encode for Address { open spec fn enc(&self) -> Seq<u8> { address_bytes(*self) }
+// ---- node addresses (std::net, cyphernet: external) -----------------------------------------------------------------
+pub mod net {
+    use vstd::prelude::*;
+    #[derive(Clone, Copy, PartialEq, Eq, Debug)] pub struct Ipv4Addr(pub [u8; 4]);
+    #[derive(Clone, Copy, PartialEq, Eq, Debug)] pub struct Ipv6Addr(pub [u8; 16]);
+    /// ASSUMED (std::net): octets() / From<[u8; N]> are the identity on the address bytes
+    impl Ipv4Addr { pub fn octets(&self) -> (r: [u8; 4]) ensures r == self.0 { self.0 } }
+    impl Ipv6Addr { pub fn octets(&self) -> (r: [u8; 16]) ensures r == self.0 { self.0 } }
+    impl From<[u8; 4]> for Ipv4Addr { fn from(b: [u8; 4]) -> (r: Ipv4Addr) ensures r == Ipv4Addr(b) { Ipv4Addr(b) } }
+    impl vstd::std_specs::convert::FromSpecImpl<[u8; 4]> for Ipv4Addr { open spec fn obeys_from_spec() -> bool { true } open spec fn from_spec(b: [u8; 4]) -> Ipv4Addr { Ipv4Addr(b) } }
+    impl From<[u8; 16]> for Ipv6Addr { fn from(b: [u8; 16]) -> (r: Ipv6Addr) ensures r == Ipv6Addr(b) { Ipv6Addr(b) } }
+    impl vstd::std_specs::convert::FromSpecImpl<[u8; 16]> for Ipv6Addr { open spec fn obeys_from_spec() -> bool { true } open spec fn from_spec(b: [u8; 16]) -> Ipv6Addr { Ipv6Addr(b) } }
+    #[derive(Clone, Copy, PartialEq, Eq, Debug)] pub enum IpAddr { V4(Ipv4Addr), V6(Ipv6Addr) }
+    impl IpAddr {
+        /// std: maps IPv4-mapped IPv6 addresses to IPv4 -- result arbitrary here
+        #[verifier::external_body] pub fn to_canonical(&self) -> IpAddr { unimplemented!() }
+    }
+}
+pub mod tor {
+    pub struct OnionAddrDecodeError;
+    /// opaque leaf (cyphernet): ASSUMED codec contract below
+    #[derive(Clone, Copy)] pub struct OnionAddrV3 { pub opaque: u64 }
+}
+pub uninterp spec fn onion_bytes(a: tor::OnionAddrV3) -> Seq<u8>;
+impl Encode for tor::OnionAddrV3 { open spec fn enc(&self) -> Seq<u8> { onion_bytes(*self) }
     #[verifier::external_body] fn encode<W: io::Write + ?Sized>(&self, writer: &mut W) -> Result<usize, io::Error> { unimplemented!() } }
-impl Decode for Address { open spec fn wire(v: Self) -> Seq<u8> { address_bytes(v) } open spec fn canonical_only() -> bool { true } open spec fn loose(v: Self, before: Seq<u8>, after: Seq<u8>) -> bool { true }
+impl Decode for tor::OnionAddrV3 { open spec fn wire(v: Self) -> Seq<u8> { onion_bytes(v) } open spec fn canonical_only() -> bool { true } open spec fn loose(v: Self, before: Seq<u8>, after: Seq<u8>) -> bool { true }
     #[verifier::external_body] fn decode<R: io::Read + ?Sized>(reader: &mut R) -> Result<Self, Error> { unimplemented!() } }
+/// String (u8 length + UTF-8 bytes; `str` byte reasoning is outside Verus): opaque leaf, ASSUMED codec contract
+pub uninterp spec fn string_bytes(s: String) -> Seq<u8>;
+impl Encode for String { open spec fn enc(&self) -> Seq<u8> { string_bytes(*self) }
+    #[verifier::external_body] fn encode<W: io::Write + ?Sized>(&self, writer: &mut W) -> Result<usize, io::Error> { unimplemented!() } }
+impl Decode for String { open spec fn wire(v: Self) -> Seq<u8> { string_bytes(v) } open spec fn canonical_only() -> bool { true } open spec fn loose(v: Self, before: Seq<u8>, after: Seq<u8>) -> bool { true }
+    #[verifier::external_body] fn decode<R: io::Read + ?Sized>(reader: &mut R) -> Result<Self, Error> { unimplemented!() } }
+/// cyphernet::addr::HostName is #[non_exhaustive]: `Other` stands for variants this crate does not know
+pub enum HostName { Ip(net::IpAddr), Dns(String), Tor(tor::OnionAddrV3), Other }
+pub struct NetAddr<H> { pub host: H, pub port: u16 }
+pub struct Address(pub NetAddr<HostName>);
+impl std::ops::Deref for Address { type Target = NetAddr<HostName>; fn deref(&self) -> (r: &NetAddr<HostName>) ensures *r == self.0 { &self.0 } }
+impl From<NetAddr<HostName>> for Address { fn from(a: NetAddr<HostName>) -> (r: Address) ensures r == Address(a) { Address(a) } }
+impl vstd::std_specs::convert::FromSpecImpl<NetAddr<HostName>> for Address { open spec fn obeys_from_spec() -> bool { true } open spec fn from_spec(a: NetAddr<HostName>) -> Address { Address(a) } }
+impl Address { pub fn port(&self) -> (r: u16) ensures r == self.0.port { self.0.port } }
+/// wire form of an address (from the format: type byte, host, big-endian port)
+pub open spec fn address_bytes(a: Address) -> Seq<u8> {
+    (match a.0.host {
+        HostName::Ip(net::IpAddr::V4(ip)) => be_u8(1) + ip.0@,
+        HostName::Ip(net::IpAddr::V6(ip)) => be_u8(2) + ip.0@,
+        HostName::Dns(d) => be_u8(3) + string_bytes(d),
+        HostName::Tor(t) => be_u8(4) + onion_bytes(t),
+        HostName::Other => Seq::<u8>::empty(),
+    }) + be_u16(a.0.port)
+}
 /// stand-in for `UserAgent::decode(&mut io::Read::chain(first.as_slice(), &mut *reader))`.
 /// ASSUMED (std::io::Chain + the Decode contract of UserAgent): decodes from the byte `first` followed by the reader.
 #[verifier::external_body]
@@ -329,6 +375,7 @@ pub open spec fn node_ann_body(a: NodeAnnouncement) -> Seq<u8> {
 //@    add
 //@      open spec fn enc(&self) -> Seq<u8> { node_ann_body(*self) + agent_bytes(self.agent) }
 //@    fn encode
+//@      touch self.enc()
 //@      desugar_try
 //@      head
 //@        proof { std_from_refl::<io::Error>(); }
@@ -342,6 +389,7 @@ pub open spec fn node_ann_body(a: NodeAnnouncement) -> Seq<u8> {
 //@          before =~= Self::wire(v) + after || (v.agent == default_agent() && before =~= node_ann_body(v) && after.len() == 0)
 //@      }
 //@    fn decode
+//@      touch Self::wire(arbitrary())
 //@      desugar_try
 //@      body_sub UserAgent::decode\(&mut io::Read::chain\(first\.as_slice\(\), &mut \*reader\)\) => vx_decode_agent_after(first, reader)
 //@      head
@@ -380,7 +428,6 @@ pub fn vx_encode_unwrap<T: Encode + ?Sized>(data: &T, buffer: &mut Vec<u8>) -> (
 { data.encode(buffer).unwrap() }
 pub struct FromUtf8Error;
 pub mod fmt { pub struct Error; }
-pub mod tor { pub struct OnionAddrDecodeError; }
 
 //@extract crates/radicle-node/src/wire.rs
 //@  item type Size
@@ -422,6 +469,7 @@ pub mod tor { pub struct OnionAddrDecodeError; }
 //@    add
 //@      open spec fn enc(&self) -> Seq<u8> { be_u8(*self) }
 //@    fn encode
+//@      touch self.enc()
 //@      desugar_try
 //@      head
 //@        proof { std_from_refl::<io::Error>(); assert(self.enc() == be_u8(*self)); }
@@ -429,6 +477,7 @@ pub mod tor { pub struct OnionAddrDecodeError; }
 //@    add
 //@      open spec fn enc(&self) -> Seq<u8> { be_u16(*self) }
 //@    fn encode
+//@      touch self.enc()
 //@      desugar_try
 //@      head
 //@        proof { std_from_refl::<io::Error>(); assert(self.enc() == be_u16(*self)); }
@@ -436,6 +485,7 @@ pub mod tor { pub struct OnionAddrDecodeError; }
 //@    add
 //@      open spec fn enc(&self) -> Seq<u8> { be_u32(*self) }
 //@    fn encode
+//@      touch self.enc()
 //@      desugar_try
 //@      head
 //@        proof { std_from_refl::<io::Error>(); assert(self.enc() == be_u32(*self)); }
@@ -443,6 +493,7 @@ pub mod tor { pub struct OnionAddrDecodeError; }
 //@    add
 //@      open spec fn enc(&self) -> Seq<u8> { be_u64(*self) }
 //@    fn encode
+//@      touch self.enc()
 //@      desugar_try
 //@      head
 //@        proof { std_from_refl::<io::Error>(); assert(self.enc() == be_u64(*self)); }
@@ -450,6 +501,7 @@ pub mod tor { pub struct OnionAddrDecodeError; }
 //@    add
 //@      open spec fn enc(&self) -> Seq<u8> { self@ }
 //@    fn encode
+//@      touch self.enc()
 //@      desugar_try
 //@      head
 //@        proof { std_from_refl::<io::Error>(); }
@@ -458,39 +510,46 @@ pub mod tor { pub struct OnionAddrDecodeError; }
 //@      open spec fn wire(v: Self) -> Seq<u8> { be_u8(v) }
 //@      open spec fn canonical_only() -> bool { true } open spec fn loose(v: Self, before: Seq<u8>, after: Seq<u8>) -> bool { true }
 //@    fn decode
+//@      touch Self::wire(arbitrary())
 //@      body_sub reader\.read_u8\(\)\.map_err\(Error::from\) => reader.read_u8().map_err(|e| -> (o: Error) ensures o == Error::Io(e) { Error::from(e) })
 //@  impl Decode for u16
 //@    add
 //@      open spec fn wire(v: Self) -> Seq<u8> { be_u16(v) }
 //@      open spec fn canonical_only() -> bool { true } open spec fn loose(v: Self, before: Seq<u8>, after: Seq<u8>) -> bool { true }
 //@    fn decode
+//@      touch Self::wire(arbitrary())
 //@      body_sub reader\.read_u16::<NetworkEndian>\(\)\.map_err\(Error::from\) => reader.read_u16::<NetworkEndian>().map_err(|e| -> (o: Error) ensures o == Error::Io(e) { Error::from(e) })
 //@  impl Decode for u32
 //@    add
 //@      open spec fn wire(v: Self) -> Seq<u8> { be_u32(v) }
 //@      open spec fn canonical_only() -> bool { true } open spec fn loose(v: Self, before: Seq<u8>, after: Seq<u8>) -> bool { true }
 //@    fn decode
+//@      touch Self::wire(arbitrary())
 //@      body_sub reader\.read_u32::<NetworkEndian>\(\)\.map_err\(Error::from\) => reader.read_u32::<NetworkEndian>().map_err(|e| -> (o: Error) ensures o == Error::Io(e) { Error::from(e) })
 //@  impl Decode for u64
 //@    add
 //@      open spec fn wire(v: Self) -> Seq<u8> { be_u64(v) }
 //@      open spec fn canonical_only() -> bool { true } open spec fn loose(v: Self, before: Seq<u8>, after: Seq<u8>) -> bool { true }
 //@    fn decode
+//@      touch Self::wire(arbitrary())
 //@      body_sub reader\.read_u64::<NetworkEndian>\(\)\.map_err\(Error::from\) => reader.read_u64::<NetworkEndian>().map_err(|e| -> (o: Error) ensures o == Error::Io(e) { Error::from(e) })
 //@  impl <const N: usize> Decode for [u8; N]
 //@    add
 //@      open spec fn wire(v: Self) -> Seq<u8> { v@ }
 //@      open spec fn canonical_only() -> bool { true } open spec fn loose(v: Self, before: Seq<u8>, after: Seq<u8>) -> bool { true }
 //@    fn decode
+//@      touch Self::wire(arbitrary())
 //@      desugar_try
 //@  impl Encode for PublicKey
 //@    add
 //@      open spec fn enc(&self) -> Seq<u8> { self.0@ }
 //@    fn encode
+//@      touch self.enc()
 //@  impl <T> Encode for &[T] where T: Encode,
 //@    add
 //@      open spec fn enc(&self) -> Seq<u8> { be_u16(self@.len() as u16) + flat_enc(self@) }
 //@    fn encode
+//@      touch self.enc()
 //@      attr #[verifier::exec_allows_no_decreases_clause]
 //@      desugar_try
 //@      desugar_for
@@ -515,14 +574,17 @@ pub mod tor { pub struct OnionAddrDecodeError; }
 //@    add
 //@      open spec fn enc(&self) -> Seq<u8> { self.0.enc() }
 //@    fn encode
+//@      touch self.enc()
 //@  impl Encode for Signature
 //@    add
 //@      open spec fn enc(&self) -> Seq<u8> { self.0@ }
 //@    fn encode
+//@      touch self.enc()
 //@  impl Encode for git::Oid
 //@    add
 //@      open spec fn enc(&self) -> Seq<u8> { be_u16(20) + self.0.0@ }
 //@    fn encode
+//@      touch self.enc()
 //@      head
 //@        proof { lemma_flat_bytes(self.0.0@); }
 //@  impl Decode for PublicKey
@@ -530,6 +592,7 @@ pub mod tor { pub struct OnionAddrDecodeError; }
 //@      open spec fn wire(v: Self) -> Seq<u8> { v.0@ }
 //@      open spec fn canonical_only() -> bool { true } open spec fn loose(v: Self, before: Seq<u8>, after: Seq<u8>) -> bool { true }
 //@    fn decode
+//@      touch Self::wire(arbitrary())
 //@      desugar_try
 //@      head
 //@        proof { std_from_refl::<Error>(); }
@@ -538,6 +601,7 @@ pub mod tor { pub struct OnionAddrDecodeError; }
 //@      open spec fn wire(v: Self) -> Seq<u8> { be_u16(20) + v.0.0@ }
 //@      open spec fn canonical_only() -> bool { true } open spec fn loose(v: Self, before: Seq<u8>, after: Seq<u8>) -> bool { true }
 //@    fn decode
+//@      touch Self::wire(arbitrary())
 //@      desugar_try
 //@      # ASSUMED: git2's raw Oid is 20 bytes (the std intrinsic cannot be evaluated in a const by Verus)
 //@      body_sub mem::size_of::<git::raw::Oid>\(\) => 20
@@ -549,6 +613,7 @@ pub mod tor { pub struct OnionAddrDecodeError; }
 //@      open spec fn wire(v: Self) -> Seq<u8> { v.0@ }
 //@      open spec fn canonical_only() -> bool { true } open spec fn loose(v: Self, before: Seq<u8>, after: Seq<u8>) -> bool { true }
 //@    fn decode
+//@      touch Self::wire(arbitrary())
 //@      desugar_try
 //@      head
 //@        proof { std_from_refl::<Error>(); }
@@ -557,6 +622,7 @@ pub mod tor { pub struct OnionAddrDecodeError; }
 //@      open spec fn wire(v: Self) -> Seq<u8> { git::Oid::wire(v.0) }
 //@      open spec fn canonical_only() -> bool { true } open spec fn loose(v: Self, before: Seq<u8>, after: Seq<u8>) -> bool { true }
 //@    fn decode
+//@      touch Self::wire(arbitrary())
 //@      desugar_try
 //@      head
 //@        proof { std_from_refl::<Error>(); }
@@ -564,6 +630,7 @@ pub mod tor { pub struct OnionAddrDecodeError; }
 //@    add
 //@      open spec fn enc(&self) -> Seq<u8> { self.remote.enc() + self.at.enc() }
 //@    fn encode
+//@      touch self.enc()
 //@      desugar_try
 //@      head
 //@        proof { std_from_refl::<io::Error>(); }
@@ -572,6 +639,7 @@ pub mod tor { pub struct OnionAddrDecodeError; }
 //@      open spec fn wire(v: Self) -> Seq<u8> { PublicKey::wire(v.remote) + git::Oid::wire(v.at) }
 //@      open spec fn canonical_only() -> bool { true } open spec fn loose(v: Self, before: Seq<u8>, after: Seq<u8>) -> bool { true }
 //@    fn decode
+//@      touch Self::wire(arbitrary())
 //@      desugar_try
 //@      head
 //@        proof { std_from_refl::<Error>(); }
@@ -579,11 +647,13 @@ pub mod tor { pub struct OnionAddrDecodeError; }
 //@    add
 //@      open spec fn enc(&self) -> Seq<u8> { be_u64(self.0) }
 //@    fn encode
+//@      touch self.enc()
 //@  impl Decode for node::Features
 //@    add
 //@      open spec fn wire(v: Self) -> Seq<u8> { be_u64(v.0) }
 //@      open spec fn canonical_only() -> bool { true } open spec fn loose(v: Self, before: Seq<u8>, after: Seq<u8>) -> bool { true }
 //@    fn decode
+//@      touch Self::wire(arbitrary())
 //@      desugar_try
 //@      head
 //@        proof { std_from_refl::<Error>(); }
@@ -591,11 +661,13 @@ pub mod tor { pub struct OnionAddrDecodeError; }
 //@    add
 //@      open spec fn enc(&self) -> Seq<u8> { be_u64(self.0) }
 //@    fn encode
+//@      touch self.enc()
 //@  impl Decode for Timestamp
 //@    add
 //@      open spec fn wire(v: Self) -> Seq<u8> { be_u64(v.0) }
 //@      open spec fn canonical_only() -> bool { true } open spec fn loose(v: Self, before: Seq<u8>, after: Seq<u8>) -> bool { true }
 //@    fn decode
+//@      touch Self::wire(arbitrary())
 //@      desugar_try
 //@      body_sub \.map_err\(Error::InvalidTimestamp\) => .map_err(|e| -> (o: Error) { Error::InvalidTimestamp(e) })
 //@      head
@@ -607,11 +679,13 @@ pub mod tor { pub struct OnionAddrDecodeError; }
 //@    add
 //@      open spec fn enc(&self) -> Seq<u8> { be_u16(self.v@.len() as u16) + flat_enc(self.v@) }
 //@    fn encode
+//@      touch self.enc()
 //@  impl <T, const N: usize> Decode for BoundedVec<T, N> where T: Decode,
 //@    add
 //@      open spec fn wire(v: Self) -> Seq<u8> { be_u16(v.v@.len() as u16) + flat_wire(v.v@) }
 //@      open spec fn canonical_only() -> bool { T::canonical_only() } open spec fn loose(v: Self, before: Seq<u8>, after: Seq<u8>) -> bool { true }
 //@    fn decode
+//@      touch Self::wire(arbitrary())
 //@      attr #[verifier::exec_allows_no_decreases_clause]
 //@      desugar_try
 //@      body_sub for _ in 0\.\.items\.capacity\(\) => for _i in vx_r: 0..items.capacity()
@@ -629,6 +703,7 @@ pub mod tor { pub struct OnionAddrDecodeError; }
 //@    add
 //@      open spec fn enc(&self) -> Seq<u8> { be_u16(self.0.bytes@.len() as u16) + self.0.bytes@ }
 //@    fn encode
+//@      touch self.enc()
 //@      desugar_try
 //@      head
 //@        proof { std_from_refl::<io::Error>(); lemma_flat_bytes(self.0.bytes@); }
@@ -637,6 +712,7 @@ pub mod tor { pub struct OnionAddrDecodeError; }
 //@      open spec fn wire(v: Self) -> Seq<u8> { be_u16(v.0.bytes@.len() as u16) + v.0.bytes@ }
 //@      open spec fn canonical_only() -> bool { true } open spec fn loose(v: Self, before: Seq<u8>, after: Seq<u8>) -> bool { true }
 //@    fn decode
+//@      touch Self::wire(arbitrary())
 //@      desugar_try
 //@      body_sub !filter::FILTER_SIZES\.contains\(&size\) => !filter::vx_is_filter_size(size)
 //@      body_sub reader\.read_exact\(&mut bytes\[\.\.\]\) => reader.read_exact(bytes.as_mut_slice())
@@ -679,6 +755,12 @@ impl vstd::std_specs::convert::TryFromSpecImpl<u16> for MessageType {
     open spec fn obeys_try_from_spec() -> bool { true }
     open spec fn try_from_spec(other: u16) -> Result<MessageType, u16> {
         match other { 2u16 => Ok::<MessageType, u16>(MessageType::NodeAnnouncement), 4u16 => Ok(MessageType::InventoryAnnouncement), 6u16 => Ok(MessageType::RefsAnnouncement), 8u16 => Ok(MessageType::Subscribe), 10u16 => Ok(MessageType::Ping), 12u16 => Ok(MessageType::Pong), 14u16 => Ok(MessageType::Info), _ => Err(other) }
+    }
+}
+impl vstd::std_specs::convert::TryFromSpecImpl<u8> for AddressType {
+    open spec fn obeys_try_from_spec() -> bool { true }
+    open spec fn try_from_spec(other: u8) -> Result<AddressType, u8> {
+        match other { 1u8 => Ok::<AddressType, u8>(AddressType::Ipv4), 2u8 => Ok(AddressType::Ipv6), 3u8 => Ok(AddressType::Dns), 4u8 => Ok(AddressType::Onion), _ => Err(other) }
     }
 }
 impl vstd::std_specs::convert::TryFromSpecImpl<u16> for InfoType {
@@ -766,14 +848,47 @@ pub proof fn lemma_message_fits(m: Message) requires constructible(m) ensures m.
 //@      ret r
 //@      ensures
 //@        r == msg_type(*self)
+//@  item enum AddressType
+//@    derive Debug, Clone, Copy, PartialEq, Eq
+//@  impl From<AddressType> for u8
+//@    fn from
+//@      attr #[verifier::external_body] // `enum as u8` with explicit discriminants: ASSUMED to yield the declared discriminant
+//@      ret r
+//@      ensures
+//@        r == (match other { AddressType::Ipv4 => 1u8, AddressType::Ipv6 => 2u8, AddressType::Dns => 3u8, AddressType::Onion => 4u8 })
+//@  impl TryFrom<u8> for AddressType
+//@    fn try_from
+//@      attr #[verifier::external_body] // 7-line match: contract ASSUMED (Verus prunes the TryFromSpecImpl of a type from the query of that type's own try_from -- dependency cycle -- so vstd's generic clause cannot be discharged here)
+//@      ret r
+//@      ensures
+//@        r == (match other { 1u8 => Ok::<AddressType, u8>(AddressType::Ipv4), 2u8 => Ok(AddressType::Ipv6), 3u8 => Ok(AddressType::Dns), 4u8 => Ok(AddressType::Onion), _ => Err(other) })
+//@  impl wire::Encode for Address
+//@    add
+//@      open spec fn enc(&self) -> Seq<u8> { address_bytes(*self) }
+//@    fn encode
+//@      touch self.enc()
+//@      desugar_try
+//@      head
+//@        proof { std_from_refl::<io::Error>(); std_io_error_from_kind(); }
+//@  impl wire::Decode for Address
+//@    add
+//@      open spec fn wire(v: Self) -> Seq<u8> { address_bytes(v) }
+//@      open spec fn canonical_only() -> bool { true } open spec fn loose(v: Self, before: Seq<u8>, after: Seq<u8>) -> bool { true }
+//@    fn decode
+//@      touch Self::wire(arbitrary())
+//@      desugar_try
+//@      head
+//@        proof { std_from_refl::<wire::Error>(); }
 //@  impl wire::Encode for AnnouncementMessage
 //@    add
 //@      open spec fn enc(&self) -> Seq<u8> { ann_msg_bytes(*self) }
 //@    fn encode
+//@      touch self.enc()
 //@  impl wire::Encode for RefsAnnouncement
 //@    add
 //@      open spec fn enc(&self) -> Seq<u8> { self.rid.enc() + self.refs.enc() + self.timestamp.enc() }
 //@    fn encode
+//@      touch self.enc()
 //@      desugar_try
 //@      head
 //@        proof { std_from_refl::<io::Error>(); }
@@ -782,6 +897,7 @@ pub proof fn lemma_message_fits(m: Message) requires constructible(m) ensures m.
 //@      open spec fn wire(v: Self) -> Seq<u8> { RepoId::wire(v.rid) + BoundedVec::<RefsAt, REF_REMOTE_LIMIT>::wire(v.refs) + Timestamp::wire(v.timestamp) }
 //@      open spec fn canonical_only() -> bool { true } open spec fn loose(v: Self, before: Seq<u8>, after: Seq<u8>) -> bool { true }
 //@    fn decode
+//@      touch Self::wire(arbitrary())
 //@      desugar_try
 //@      head
 //@        proof { std_from_refl::<wire::Error>(); }
@@ -789,6 +905,7 @@ pub proof fn lemma_message_fits(m: Message) requires constructible(m) ensures m.
 //@    add
 //@      open spec fn enc(&self) -> Seq<u8> { self.inventory.enc() + self.timestamp.enc() }
 //@    fn encode
+//@      touch self.enc()
 //@      desugar_try
 //@      head
 //@        proof { std_from_refl::<io::Error>(); }
@@ -797,6 +914,7 @@ pub proof fn lemma_message_fits(m: Message) requires constructible(m) ensures m.
 //@      open spec fn wire(v: Self) -> Seq<u8> { BoundedVec::<RepoId, INVENTORY_LIMIT>::wire(v.inventory) + Timestamp::wire(v.timestamp) }
 //@      open spec fn canonical_only() -> bool { true } open spec fn loose(v: Self, before: Seq<u8>, after: Seq<u8>) -> bool { true }
 //@    fn decode
+//@      touch Self::wire(arbitrary())
 //@      desugar_try
 //@      head
 //@        proof { std_from_refl::<wire::Error>(); }
@@ -810,7 +928,7 @@ pub proof fn lemma_message_fits(m: Message) requires constructible(m) ensures m.
 //@        r == 1
 //@  impl TryFrom<u16> for InfoType
 //@    fn try_from
-//@      attr #[verifier::external_body] // 4-line match; Verus 0.2026.09.13 fails vstd's generic TryFrom clause here for no reason I could isolate (same shape verifies for MessageType and in isolation): contract ASSUMED
+//@      attr #[verifier::external_body] // 4-line match: contract ASSUMED (Verus prunes the TryFromSpecImpl of a type from the query of that type's own try_from -- dependency cycle -- so vstd's generic clause cannot be discharged here)
 //@      ret r
 //@      ensures
 //@        r == (if other == 1 { Ok::<InfoType, u16>(InfoType::RefsAlreadySynced) } else { Err(other) })
@@ -820,6 +938,7 @@ pub proof fn lemma_message_fits(m: Message) requires constructible(m) ensures m.
 //@    add
 //@      open spec fn enc(&self) -> Seq<u8> { match self { Info::RefsAlreadySynced { rid, at } => be_u16(1) + rid.enc() + at.enc() } }
 //@    fn encode
+//@      touch self.enc()
 //@      desugar_try
 //@      head
 //@        proof { std_from_refl::<io::Error>(); }
@@ -828,6 +947,7 @@ pub proof fn lemma_message_fits(m: Message) requires constructible(m) ensures m.
 //@      open spec fn wire(v: Self) -> Seq<u8> { match v { Info::RefsAlreadySynced { rid, at } => be_u16(1) + RepoId::wire(rid) + git::Oid::wire(at) } }
 //@      open spec fn canonical_only() -> bool { true } open spec fn loose(v: Self, before: Seq<u8>, after: Seq<u8>) -> bool { true }
 //@    fn decode
+//@      touch Self::wire(arbitrary())
 //@      desugar_try
 //@      head
 //@        proof { std_from_refl::<wire::Error>(); }
@@ -835,6 +955,7 @@ pub proof fn lemma_message_fits(m: Message) requires constructible(m) ensures m.
 //@    add
 //@      open spec fn enc(&self) -> Seq<u8> { msg_bytes(*self) }
 //@    fn encode
+//@      touch self.enc()
 //@      desugar_try
 //@      body_sub (?s)io::Error::new\(\s*io::ErrorKind::InvalidData,\s*"Message exceeds maximum size",\s*\) => vx_io_error_new(io::ErrorKind::InvalidData)
 //@      head
@@ -851,6 +972,7 @@ pub proof fn lemma_message_fits(m: Message) requires constructible(m) ensures m.
 //@          before =~= msg_wire(v) + after || (msg_alt(v) is Some && before =~= msg_alt(v)->Some_0 && after.len() == 0)
 //@      }
 //@    fn decode
+//@      touch Self::wire(arbitrary())
 //@      desugar_try
 //@      head
 //@        proof { std_from_refl::<wire::Error>(); }
@@ -858,6 +980,7 @@ pub proof fn lemma_message_fits(m: Message) requires constructible(m) ensures m.
 //@    add
 //@      open spec fn enc(&self) -> Seq<u8> { be_u16(self.0) + Seq::new(self.0 as nat, |i: int| 0u8) }
 //@    fn encode
+//@      touch self.enc()
 //@      attr #[verifier::exec_allows_no_decreases_clause]
 //@      desugar_try
 //@      body_sub for _ in 0\.\.self\.len\(\) => for _i in 0..self.len()
@@ -874,6 +997,7 @@ pub proof fn lemma_message_fits(m: Message) requires constructible(m) ensures m.
 //@      open spec fn wire(v: Self) -> Seq<u8> { be_u16(v.0) + Seq::new(v.0 as nat, |i: int| 0u8) }
 //@      open spec fn canonical_only() -> bool { true } open spec fn loose(v: Self, before: Seq<u8>, after: Seq<u8>) -> bool { true }
 //@    fn decode
+//@      touch Self::wire(arbitrary())
 //@      attr #[verifier::exec_allows_no_decreases_clause]
 //@      desugar_try
 //@      body_sub for _ in 0\.\.zeroes => for _i in 0..zeroes
